@@ -120,6 +120,7 @@ def run(ctx):
                       f"{r['search']} on neighbour map {r['map']} universe {r['universe']} attribute pattern {r['pattern']} ({r['vcls']}): {what}", replay=replay(r))
     res.rule("FIRST-MATCH", n)
     opt_rule(ctx, res)
+    steps(ctx, res)
     common.vacuity(res, "FIRST-MATCH", 3000)
     res.analysed = common.analysed(ctx, [f"{m}.{s}" for m, l, g, s in trav.TRAVS.values()])
     res.explanation = "Bounded exhaustive sibling cross-check between each search and its traversal; every mismatch is a concrete witness graph."
@@ -171,3 +172,28 @@ def opt_rule(ctx, res):
                     n += 1
                     res.note(f"OPT: {f.rel}:{t.lineno} {f.qual}: optional vertex `{t.id}` used in a boolean context (a falsy-valued vertex would be dropped); verdict comes from the FIRST-MATCH evaluation")
     res.rule("OPT", n)
+
+
+def steps(ctx, res):
+    """Unbounded argument: each search's prologue and single step equal the traversal schema's step with emit replaced by the match test."""
+    from rules import travstep
+    try:
+        sr = travstep.run_search_steps(ctx)
+    except Exception as e:  # noqa: BLE001
+        res.note(f"step-transformer argument could not be evaluated ({type(e).__name__}: {e}); verdict rests on the sweep")
+        return
+    res.rule("SCHEMA-STEP", sr.n)
+    res.obligations += sr.n
+    res.evaluations += sr.n
+    res.discharged += sr.n - len(sr.mismatches) - len(sr.undecided)
+    res.extra["schema_step"] = {"obligations": sr.n, "mismatches": len(sr.mismatches), "undecided": len(sr.undecided), "proved": sr.proved}
+    if sr.proved and not res.findings and not res.undecided:
+        res.bounded_only = False
+        res.level = "proof"
+        res.explanation = ("Every search's prologue and single step (from an arbitrary abstract worklist state in which no marked vertex matches) equals its traversal's schema step with `emit` replaced by "
+                           "the match test, for falsy-valued vertices, equal-but-not-identical and None sought values; the small-scope sibling cross-check found no mismatch either.")
+    else:
+        for m in sr.mismatches[:3]:
+            res.note("step differs from the search schema (not a violation by itself; the sweep decides): " + m[:300])
+        for m in sr.undecided[:3]:
+            res.note("step not decidable (verdict rests on the sweep): " + m[:300])
